@@ -8,6 +8,7 @@ import Mitx.Driver.Depend
 import Mitx.Driver.Tol
 import Mitx.Driver.SumG
 import Mitx.Driver.Safety
+import Mitx.Driver.Restrict
 open Lean
 
 def dispatch (op : String) (j : Json) : Except String Json :=
@@ -27,6 +28,7 @@ def dispatch (op : String) (j : Json) : Except String Json :=
   | "within_tol" => Drv.withinTolOp j
   | "sum" => Drv.sumOp j
   | "brackets" => Drv.brackets j
+  | "restrict" => Drv.restrict j
   | "ensure_text" => Drv.ensureTextOp j
   | "matrix_recast" => Drv.matrixRecastOp j
   | "sum_positions" => Drv.sumPositions j
